@@ -96,7 +96,7 @@ class Gen:
         n = r.choice([0, 1, 1, 2, 2, 3])
         bases32 = [0x40000000, 0x50000000, 0x1000, 0x08040000, 0xF0000000, 0x10000]
         bases64 = [0x00007400c0000000, 0x00007500b0000000, 0x40000000, 0x0000800000000000, 0xFFFF800000000000,
-                   0xFFFFFFFFFFFF0000, 0x1000, 0x0010000000000000]
+                   0xFFFFFFFFFFFF0000, 0x1000, 0x0010000000000000, 0x0008000000000000, 0x0000F00000000000]
         for _ in range(n):
             b = r.choice(bases32 if A["bits"] == 32 else bases64 + bases32)
             size = r.choice([0x10000, 0x1000, 0x20000, 0x10000, 1, 0])
@@ -194,8 +194,11 @@ class Gen:
         top = (1 << bits) - 1
         nm = r.choice([1, 1, 2])
         mb = 0x40000000 if bits == 32 or r.chance(1, 2) else 0x00007400c0000000
+        high = arch in (3, 6) and r.chance(1, 3)
+        if high:      # 48-bit address space: code above 2^47, a low-mapped module listed last (load order, not address order)
+            mb = r.choice([0x0000F00000000000, 0x0000800000000000, 0x0008000000000000])
         code = lambda mi=None: mb + 0x20000 * (r.below(nm) if mi is None else mi) + 0x100 + 4 * r.below(64)
-        base = (0x80000000 if bits == 32 else 0x00007ffd00000000) + pw * r.below(4)
+        base = (0x80000000 if bits == 32 else (0x0000A00000000000 if high and r.chance(1, 2) else 0x00007ffd00000000)) + pw * r.below(4)
         n_words = r.choice([8, 16, 24, 40])
         data = []
         for w in range(n_words):
@@ -221,6 +224,10 @@ class Gen:
             text = rules()
             deltas = "|%d=%s" % (0x100 + 4 * r.below(64), rules().replace(" ", "~")) if r.chance(1, 3) else ""
             mods.append((mb + 0x20000 * i, 0x10000, "Y|0|65536|0|65536|%s%s" % (text.replace(" ", "~"), deltas)))
+        if high or r.chance(1, 5):
+            mods.append((r.choice([0x10000000, 0x20000]), 0x1000, "-"))
+            if r.chance(1, 3):
+                mods.insert(0, (0x30000000, 0x1000, "-"))
         gp = [r.choice([code(), code(), base + pw * r.below(n_words), 0]) for _ in range(A["ngp"])]
         valid = "*" if r.chance(4, 5) else ",".join([R["sp"], R.get("pc", ["eip" if arch == 0 else "rip"])[0]] + [n for n in R["lr"][:1] + R["fp"][:1] + R["gp"][-3:] if r.chance(1, 2)])
         return fmt_case(arch, r.choice([0, 0, 1, 2]), code(), base + pw * r.below(3), base + pw * r.below(n_words), code() if R["lr"] else 0,
